@@ -58,12 +58,11 @@ func genPair(isCA bool) pemPair {
 	return pemPair{pem.EncodeToMemory(&pem.Block{Type: "CERTIFICATE", Bytes: der}), pem.EncodeToMemory(&pem.Block{Type: "PRIVATE KEY", Bytes: kb})}
 }
 
-// dataScheme is the spelling of the data: scheme used by dataURI in the current execution (URI schemes are
-// case-insensitive; a binary that takes another spelling as inline data must redact it just the same, one
-// that takes it for a file name refuses to start and nothing is demanded).
-var dataScheme = "data:"
-
-func dataURI(b []byte) string { return dataScheme + base64.StdEncoding.EncodeToString(b) }
+// dataURI writes inline data with the given spelling of the data: scheme (URI schemes are case-insensitive; a
+// binary that takes another spelling as inline data must redact it just the same, one that takes it for a
+// file name refuses to start and nothing is demanded). The spelling is a per-execution value: executions of
+// this check run concurrently in one process.
+func dataURI(scheme string, b []byte) string { return scheme + base64.StdEncoding.EncodeToString(b) }
 
 // listener helpers (real loopback sockets)
 type tcpServer struct {
@@ -157,7 +156,7 @@ func scenario(x *explore.X, bin string) {
 	form := forms[x.Choose("form", len(forms))]
 	level := levels[x.Choose("log-level", len(levels))]
 	mode := modes[x.Choose("log-http", len(modes))]
-	dataScheme = "data:"
+	dataScheme := "data:"
 	if carrier == "tls-key-file" || carrier == "mitm-cakey-file" {
 		dataScheme = []string{"data:", "Data:", "DATA:"}[x.Choose("data-scheme-spelling", 3)]
 	}
@@ -221,8 +220,8 @@ func scenario(x *explore.X, bin string) {
 		wantVisible = append(wantVisible, "siteuser:xxxxx@127.0.0.1:"+origin.port())
 	case "tls-key-file":
 		opts["protocol"] = "https"
-		opts["tls-cert-file"] = dataURI(srvPair.cert)
-		opts["tls-key-file"] = dataURI(srvPair.key)
+		opts["tls-cert-file"] = dataURI(dataScheme, srvPair.cert)
+		opts["tls-key-file"] = dataURI(dataScheme, srvPair.key)
 		b64 := base64.StdEncoding.EncodeToString(srvPair.key)
 		needles = append(needles, b64, b64[20:60], strings.Split(string(srvPair.key), "\n")[1])
 		if dataScheme == "data:" {
@@ -230,8 +229,8 @@ func scenario(x *explore.X, bin string) {
 		}
 		useTLS = true
 	case "mitm-cakey-file":
-		opts["mitm-cacert-file"] = dataURI(caPair.cert)
-		opts["mitm-cakey-file"] = dataURI(caPair.key)
+		opts["mitm-cacert-file"] = dataURI(dataScheme, caPair.cert)
+		opts["mitm-cakey-file"] = dataURI(dataScheme, caPair.key)
 		b64 := base64.StdEncoding.EncodeToString(caPair.key)
 		needles = append(needles, b64, b64[20:60], strings.Split(string(caPair.key), "\n")[1])
 		if dataScheme == "data:" {
